@@ -611,6 +611,12 @@ impl<'s, M: Matcher, S: Sink> Core<'s, M, S> {
         if self.config.stop_on_nonmatch && self.has_matched {
             return false;
         }
+        // The fast inverted search skips over the lines that do not satisfy
+        // the inverted search without looking at them individually, so it
+        // cannot notice the line that must end a stop-on-nonmatch search.
+        if self.config.stop_on_nonmatch && self.config.invert_match {
+            return false;
+        }
         if let Some(line_term) = self.matcher.line_terminator() {
             // FIXME: This works around a bug in grep-regex where it does
             // not set the line terminator of the regex itself, and thus
